@@ -21,11 +21,12 @@ Cache    == {"absent", "negative", "zero", "one", "positive", "huge", "wrong_typ
 Preload  == {"absent", "negative", "zero", "positive", "huge", "wrong_type"}
 Timeout  == {"absent", "negative", "zero", "positive", "huge", "fractional", "wrong_type"}
 Colour   == {"absent", "valid", "empty", "short", "no_hash", "non_hex", "signed", "wrong_type"}
-Shape    == {"ok", "unknown_key", "unknown_table", "syntax_error", "missing_file", "empty_file"}
+Shape    == {"ok", "unknown_key", "unknown_table", "syntax_error", "missing_file", "empty_file",
+             "no_location"}     \* neither HOME nor XDG_CONFIG_HOME is set: there is nowhere to look, the defaults apply
 Vectors  == [hook : Hook, cache : Cache, preload : Preload, timeout : Timeout, colour : Colour, shape : Shape]
 
 (* a missing or empty file carries no keys at all *)
-Effective(v) == IF v.shape \in {"missing_file", "empty_file"}
+Effective(v) == IF v.shape \in {"missing_file", "empty_file", "no_location"}
                 THEN [hook |-> "absent", cache |-> "absent", preload |-> "absent", timeout |-> "absent", colour |-> "absent", shape |-> v.shape]
                 ELSE v
 
